@@ -114,6 +114,30 @@ def _chunk(item):
   return n, steps, viols, dict(outcomes), hashes, stack, sample
 
 
+PLAN = {'deadline': None, 'calls_left': 0}
+
+
+def set_plan(total_s, n_calls):
+  """Wall-clock plan for the explore() calls of one check run (thorough tier): every call gets an equal share of what is
+  left, so time a small configuration does not use goes to the later ones.  A call that runs out of its share stops
+  and reports capped=True, cap_reason='time' -- never 'exhaustive'."""
+  import time  # pylint: disable=g-import-not-at-top
+  if total_s is None:
+    PLAN['deadline'], PLAN['calls_left'] = None, 0
+  else:
+    PLAN['deadline'], PLAN['calls_left'] = time.time() + total_s, max(1, n_calls)
+
+
+def _take_share():
+  import time  # pylint: disable=g-import-not-at-top
+  if PLAN['deadline'] is None:
+    return None
+  left = max(5.0, PLAN['deadline'] - time.time())
+  share = left / max(1, PLAN['calls_left'])
+  PLAN['calls_left'] = max(1, PLAN['calls_left'] - 1)
+  return time.time() + max(5.0, share)
+
+
 def explore(key, execute, check, bound, cap=200000, split=None, free_forced=True):
   """Explores all executions with at most `bound` deviations (stateless DFS, parallel).
 
@@ -121,6 +145,8 @@ def explore(key, execute, check, bound, cap=200000, split=None, free_forced=True
   `check(ex)` returns a list of (signature, what, replay) tuples.
   """
   import multiprocessing  # pylint: disable=g-import-not-at-top
+  import time as _time  # pylint: disable=g-import-not-at-top
+  stop_at = _take_share()
   _HARNESS[key] = (execute, check)
   FREE_FORCED[0] = free_forced
   # determinism self-check: the default schedule twice
@@ -152,6 +178,9 @@ def explore(key, execute, check, bound, cap=200000, split=None, free_forced=True
       if done >= cap:
         capped = True
         break
+      if stop_at is not None and _time.time() > stop_at:
+        capped = 'time'
+        break
       batch = [stack.pop() for _ in range(min(len(stack), jobs * 4))]
       items = [(key, pre, u, bound, free_forced) for pre, u in batch]
       if pool is not None:
@@ -175,7 +204,8 @@ def explore(key, execute, check, bound, cap=200000, split=None, free_forced=True
       pool.terminate()
       pool.join()
   return {'executions': done, 'steps': steps, 'violations': viols, 'outcomes': dict(outcomes),
-          'states': len(hashes), 'capped': capped, 'default_points': len(a.points), 'samples': samples,
+          'states': len(hashes), 'capped': bool(capped), 'cap_reason': ('time budget' if capped == 'time' else 'execution cap') if capped else None,
+          'default_points': len(a.points), 'samples': samples,
           'default_labels': [p['label'] for p in a.points][:60]}
 
 
